@@ -50,6 +50,16 @@ var Renamings = []Renaming{
 		V6:     map[string]string{},
 		OpBase: 1<<64 - 1 - 100000 - 70,
 	},
+	{
+		// two ids at the bottom and two at the top of the range: every mixed pair is
+		// further apart than 2^63 (differences overflow a signed 64-bit integer)
+		Name:   "ids-spanning-the-uint64-range",
+		IDs:    map[uint64]uint64{1: 1, 2: 1<<63 + 10, 3: 2, 4: 1<<64 - 1},
+		Labels: map[uint64]uint64{100: 16, 101: 1048575, 1048575: 17},
+		V4:     map[string]string{},
+		V6:     map[string]string{},
+		OpBase: 1<<63 - 5,
+	},
 }
 
 func (r *Renaming) id(x uint64) uint64 {
